@@ -48,6 +48,10 @@ class CoAPPairing(ZeroconfPairing):
 
     def _async_endpoint_changed(self) -> None:
         """The IP/Port has changed, so close connection if active then reconnect."""
+        if not self.description:
+            # A pairing that has been shut down ignores description updates,
+            # so there may be no description to take the address from.
+            return
         self.connection.address = f"[{self.description.address}]:{self.description.port}"
         async_create_task(self.connection.reconnect_soon())
 
